@@ -1,6 +1,7 @@
 package checks
 
 import (
+	"path/filepath"
 	"encoding/json"
 	"fmt"
 	"os"
@@ -25,6 +26,7 @@ type c16Spec struct {
 	Alpha  []string `json:"alpha"`
 	D      int      `json:"d"`
 	Word   []string `json:"word,omitempty"`
+	Ext    int      `json:"ext,omitempty"` // the run names another configuration of the project (fileExtension=sc2): 1 rotation as text, 2 as CSV; the default files hold another rotation
 }
 
 type c16Crop struct {
@@ -127,6 +129,16 @@ func c16Specs(tier string, seed int) []c16Spec {
 			}
 		}
 	}
+	// several configurations in one project folder: the run names its configuration with the fileExtension option
+	for r := 0; r < 4; r++ {
+		for _, t := range []int{0, 2} {
+			for _, sw := range []int{0, 1, 3, 15} {
+				for ext := 1; ext <= 2; ext++ {
+					out = append(out, c16Spec{Rot: r, Table: t, Switch: sw, Alpha: alpha[:2], D: 1, Ext: ext})
+				}
+			}
+		}
+	}
 	return out
 }
 
@@ -214,6 +226,49 @@ func c16Run(raw json.RawMessage, c *mc.Ctx) {
 	}
 	p.Weather = baseW
 	p.Write(root)
+	extraArgs := []string{}
+	if sp.Ext > 0 {
+		pd := filepath.Join(root, "project", p.ID)
+		cpf := func(from, to string) {
+			b, err := os.ReadFile(filepath.Join(pd, from))
+			if err != nil {
+				mc.HarnessError("C16 ext: %v", err)
+			}
+			os.WriteFile(filepath.Join(pd, to), b, 0o644)
+		}
+		cpf("poly_"+p.ID+".txt", "poly_"+p.ID+".sc2")
+		cpf("automan.txt", "automan.sc2")
+		if sp.Ext == 1 {
+			cpf("crop_"+p.ID+".txt", "crop_"+p.ID+".sc2")
+		} else {
+			var cb strings.Builder
+			cb.WriteString("Field_ID,crop,sowing,harvest,Rex,yld,autorg,variety\n")
+			for i, r := range p.Rotation {
+				sow := "--------"
+				if i > 0 {
+					sow = proj.DateStr("DateDElong", proj.D(r.Sow))
+				}
+				fmt.Fprintf(&cb, "%s,%s,%s,%s,%03d,%03d,%d,%s\n", p.Field, r.Crop, sow, proj.DateStr("DateDElong", proj.D(r.Harvest)), r.Rex, r.Yld, r.AutOrg, r.Variety)
+			}
+			os.WriteFile(filepath.Join(pd, "crop_"+p.ID+".sc2"), []byte(cb.String()), 0o644)
+			extraArgs = append(extraArgs, "CropFileFormat=csv")
+		}
+		// the default configuration of the folder grows something else: oat, sown and harvested on other dates
+		q := *p
+		q.Rotation = append(append([]proj.CropEntry{}, p.Rotation[:1]...), proj.CropEntry{Crop: "OA", Sow: isoAdd(rot[0].sow, 33), Harvest: isoAdd(rot[0].harvest, -9), Rex: 10}, proj.CropEntry{Crop: "WW", Sow: "2008-10-01", Harvest: "2009-07-30"})
+		os.WriteFile(filepath.Join(pd, "crop_"+p.ID+".txt"), []byte(q.RotationTxt()), 0o644)
+		var db strings.Builder
+		db.WriteString("Field_ID,crop,sowing,harvest,Rex,yld,autorg,variety\n")
+		for i, r := range q.Rotation {
+			sow := "--------"
+			if i > 0 {
+				sow = proj.DateStr("DateDElong", proj.D(r.Sow))
+			}
+			fmt.Fprintf(&db, "%s,%s,%s,%s,%03d,%03d,%d,%s\n", p.Field, r.Crop, sow, proj.DateStr("DateDElong", proj.D(r.Harvest)), r.Rex, r.Yld, r.AutOrg, r.Variety)
+		}
+		os.WriteFile(filepath.Join(pd, "crop_"+p.ID+".csv"), []byte(db.String()), 0o644)
+		extraArgs = append(extraArgs, "fileExtension=sc2")
+	}
 	start := proj.ZEIT(proj.D("2001-08-15"))
 	_ = start
 	for _, w := range ws {
@@ -232,6 +287,9 @@ func c16Run(raw json.RawMessage, c *mc.Ctx) {
 		p.Weather = wx
 		writeWeather(root, p)
 		label := fmt.Sprintf("rotation %d table %d switches sow=%v harvest=%v irrigation=%v fertilisation=%v word=%v", sp.Rot, sp.Table, autoSow, autoHar, autoIrr, autoFert, w)
+		if sp.Ext > 0 {
+			label += fmt.Sprintf(" [configuration sc2 named with fileExtension, rotation format %d]", sp.Ext)
+		}
 		nv := len(c.Viol)
 		decisions := 0
 		pr := &hermes.VerifProbe{AfterEvatra: func(g *hermes.GlobalVarsMain, zeit int, wv *hermes.WaterSharedVars) {
@@ -254,7 +312,7 @@ func c16Run(raw json.RawMessage, c *mc.Ctx) {
 				}
 			}
 		}}
-		res := proj.Run(root, p.Args(root), pr)
+		res := proj.Run(root, p.Args(root, extraArgs...), pr)
 		c.Trace(1)
 		if !res.Success || res.Panic != "" {
 			c.Outcome("run-error")
